@@ -10,7 +10,9 @@ WT=/tmp/seedwt/$NAME
 mkdir -p /tmp/seedwt
 git -C /repo worktree remove --force "$WT" >/dev/null 2>&1
 git -C /repo worktree add -q --detach "$WT" HEAD || exit 2
-if ! git -C "$WT" apply "$SD/patch.diff" 2>/dev/null && ! (cd "$WT" && patch -p1 -s -F3 --no-backup-if-mismatch < "$SD/patch.diff"); then echo "PATCH DOES NOT APPLY"; git -C /repo worktree remove --force "$WT"; exit 2; fi
+# patch-current.diff: the same change ported to the current HEAD (where a later commit touched its context)
+PATCH="$SD/patch.diff"; [ -f "$SD/patch-current.diff" ] && PATCH="$SD/patch-current.diff"
+if ! git -C "$WT" apply "$PATCH" 2>/dev/null && ! (cd "$WT" && patch -p1 -s -F3 --no-backup-if-mismatch < "$PATCH"); then echo "PATCH DOES NOT APPLY"; git -C /repo worktree remove --force "$WT"; exit 2; fi
 mkdir -p .work/seedruns/replays-$NAME replays
 ls replays > .work/seedruns/.before-$NAME 2>/dev/null
 for id in "$@"; do
